@@ -26,6 +26,13 @@ class MethodSignature(LeafExpr):
             )
         elif len(methodName) == 0:
             raise TealInputError("invalid input empty string to Method")
+        elif any(c in methodName for c in '"\n\r'):
+            # the assembler reads the signature verbatim between two quotes on one line
+            raise TealInputError(
+                "invalid method signature {}: it cannot contain a double quote or a line break".format(
+                    repr(methodName)
+                )
+            )
         self.methodName = methodName
 
     def __teal__(self, options: "CompileOptions"):
